@@ -32,6 +32,13 @@ impl<CS: ConcurrentStream> ConcurrentStream for Take<CS> {
     where
         C: Consumer<Self::Item, Self::Future>,
     {
+        if self.limit == 0 {
+            // Nothing may be taken: don't drive the inner stream at all,
+            // just like `Iterator::take(0)` never calls `next`.
+            let mut consumer = core::pin::pin!(consumer);
+            return consumer.as_mut().flush().await;
+        }
+
         self.inner
             .drive(TakeConsumer {
                 inner: consumer,
